@@ -685,6 +685,9 @@ impl DbInner {
 			Operation::ReferenceTree(..) =>
 				if !multitree {
 					return invalid()
+				} else if !options.append_only && !options.ref_counted {
+					// The root would get an `Operation::Reference`, which needs reference counting.
+					return Err(Error::InvalidInput(format!("No Rc for column {col}")))
 				},
 			Operation::DereferenceTree(key) => {
 				if !multitree {
